@@ -368,6 +368,43 @@ func runC13(c *rt.Ctx) {
 		}
 	})
 	c.Require("same-number-other-unit", 8)
+	// the size was built by the program just before it is shortened or rendered: from a number and a unit that is not
+	// the maximal one (New), from a text or a JSON document that spells it in another unit (parsers, Unmarshal*)
+	c.Serial("constructed-then-rendered", func(w *rt.W) {
+		units := []string{"B", "KiB", "MiB", "GiB", "TiB", "PiB", "EiB", "kB", "MB", "GB", ""}
+		for _, m := range []uint64{1, 2, 3, 1000, 1024, 2048, 4096, 1536, 1048576, 3 << 20, 1 << 30, 1024000, 125, 512, 16} {
+			for _, u := range units {
+				mult, okU := ref.UnitMult(u)
+				if !okU || !mult.IsUint64() {
+					continue
+				}
+				if hi, _ := mul64(m, mult.Uint64()); hi != 0 {
+					continue
+				}
+				for _, build := range []func() (size.Size, error){
+					func() (size.Size, error) { return size.New(m, u) },
+					func() (size.Size, error) { return size.New(float64(m), u) },
+					func() (size.Size, error) { return size.New(int64(m), u) },
+					func() (size.Size, error) { return size.DefaultParser(fmt.Sprint(m, u), 0) },
+					func() (size.Size, error) { return size.DefaultParser([]byte(fmt.Sprint(m, " ", u)), size.DefaultRule) },
+					func() (size.Size, error) { var z size.Size; err := z.UnmarshalText([]byte(fmt.Sprint(m, u))); return z, err },
+					func() (size.Size, error) {
+						return size.DefaultParser(fmt.Sprintf(`{"value":%d,"unit":%q}`, m, u), size.RuleEnableJSONObjectForm)
+					},
+				} {
+					z, err := build()
+					w.Eval(1)
+					if err != nil {
+						continue
+					}
+					c13Case(w, uint64(z))
+					c13Case(w, m*mult.Uint64())
+					w.ClassN("constructed-then-rendered", 1)
+				}
+			}
+		}
+	})
+	c.Require("constructed-then-rendered", 500)
 	c.Parallel("below-2^20", 0, func(w *rt.W) {
 		for s := uint64(w.Shard); s < 1<<20; s += uint64(w.NShards) {
 			c13Case(w, s)
